@@ -32,13 +32,19 @@ def _g(c, name, mean, form, n, param, geometry=None, gname=None):
 
 def _problem(c, m, n, noise_form, prior_form, noise_param='cov', prior_param='cov', geom='default'):
     A = c.mat('A', m, n)
-    if geom == 'default': model = LinearModel(A)
+    if geom == 'subsample_view':
+        # function-backed model whose forward returns a VIEW of its input (every second component), adjoint = zero-filling
+        n = 2 * m
+        def _adj(y):
+            out = np.zeros(n, dtype=object if c.sym else float); out[::2] = y; return out
+        model = LinearModel(lambda x: x[::2], _adj, range_geometry=m, domain_geometry=n)
+    elif geom == 'default': model = LinearModel(A)
     elif geom == 'Continuous1D': model = LinearModel(A, range_geometry=cuqi.geometry.Continuous1D(m), domain_geometry=cuqi.geometry.Continuous1D(n))
     elif geom == 'Step':
         gd = cuqi.geometry.StepExpansion(np.linspace(0, 1, 2 * n), n_steps=n)
         A = c.mat('A', m, 2 * n); model = LinearModel(A, range_geometry=m, domain_geometry=gd)
-    x = _g(c, 'prior', c.vec('mu', n), prior_form, n, prior_param, geometry=model.domain_geometry if geom != 'default' else None, gname='x')
-    y = _g(c, 'noise', model(x), noise_form, m, noise_param, geometry=m if geom == 'default' else model.range_geometry, gname='y')
+    x = _g(c, 'prior', c.vec('mu', n), prior_form, n, prior_param, geometry=model.domain_geometry if geom not in ('default', 'subsample_view') else None, gname='x')
+    y = _g(c, 'noise', model(x), noise_form, m, noise_param, geometry=m if geom in ('default', 'subsample_view') else model.range_geometry, gname='y')
     data = c.vec('yobs', m)
     return BayesianProblem(y, x).set_data(y=data), n
 
@@ -46,9 +52,9 @@ def _problem(c, m, n, noise_form, prior_form, noise_param='cov', prior_param='co
 def map_closed_form(c, m, n, noise_form, prior_form, noise_param='cov', prior_param='cov', geom='default'):
     BP, n = _problem(c, m, n, noise_form, prior_form, noise_param, prior_param, geom)
     post = BP.posterior
-    S0 = (frame.snapshot(BP.likelihood.distribution), frame.snapshot(BP.prior))
+    S0 = (frame.snapshot(BP.likelihood.distribution, ('_matrix',)), frame.snapshot(BP.prior, ('_matrix',)))
     xmap = BP.MAP(disp=False)              # a refusal (exception) is an admissible outcome
-    S1 = (frame.snapshot(BP.likelihood.distribution), frame.snapshot(BP.prior))
+    S1 = (frame.snapshot(BP.likelihood.distribution, ('_matrix',)), frame.snapshot(BP.prior, ('_matrix',)))
     c.holds('computing_the_estimate_leaves_noise_model_and_prior_unchanged', frame.same(S0, S1), note='; '.join(frame.diff(S0, S1)))
     c.eq('a_second_call_returns_the_same_estimate', np.asarray(BP.MAP(disp=False)), np.asarray(xmap))
     c.holds('map_has_parameter_shape', np.shape(xmap) == (n,), note=str(np.shape(xmap)))
@@ -81,12 +87,12 @@ def direct_sampling(c, m, n, noise_form, prior_form, public=False):
     for s in range(2):
         if c.sym: shims.PRESET['normal'].append(e[s])
         else: c._numq['normal'].append(e[s]); c._patch_random()
-    S0 = (frame.snapshot(BP.likelihood.distribution), frame.snapshot(BP.prior))
+    S0 = (frame.snapshot(BP.likelihood.distribution, ('_matrix',)), frame.snapshot(BP.prior, ('_matrix',)))
     if public:
         import io, contextlib
         with contextlib.redirect_stdout(io.StringIO()): S = BP.sample_posterior(2)          # the public entry point must select the direct route and hand its draws back
     else: S = BP._sampleMapCholesky(2)
-    S1 = (frame.snapshot(BP.likelihood.distribution), frame.snapshot(BP.prior))
+    S1 = (frame.snapshot(BP.likelihood.distribution, ('_matrix',)), frame.snapshot(BP.prior, ('_matrix',)))
     c.holds('sampling_leaves_noise_model_and_prior_unchanged', frame.same(S0, S1), note='; '.join(frame.diff(S0, S1)))
     xmap = np.asarray(BP.MAP(disp=False))
     H = -c.hessian_of(lambda v: post.logd(v), n)
@@ -162,7 +168,7 @@ def jobs(tier):
             (2, 2, 'vector', 'vector', 'cov', 'cov', 'default'), (2, 2, 'scalar', 'scalar', 'cov', 'cov', 'Continuous1D'),
             (2, 2, 'scalar', 'scalar', 'cov', 'cov', 'Step'),
             (2, 2, 'vector', 'vector', 'prec', 'cov', 'default'), (2, 2, 'vector', 'vector', 'cov', 'sqrtprec', 'default'), (2, 2, 'scalar', 'scalar', 'sqrtcov', 'prec', 'default'),
-            (2, 2, 'dense', 'vector', 'cov', 'cov', 'default')]        # correlated noise: the covariance is a stored matrix, not a temporary
+            (2, 2, 'dense', 'vector', 'cov', 'cov', 'default'), (2, 4, 'scalar', 'vector', 'cov', 'cov', 'subsample_view')]        # correlated noise: the covariance is a stored matrix, not a temporary
     if not q: cfgs += [(1, 1, 'scalar', 'scalar', 'cov', 'cov', 'default'), (2, 2, 'dense', 'dense', 'cov', 'cov', 'default'), (2, 2, 'vector', 'dense', 'cov', 'cov', 'default')]
     for (m, n, nf, pf, npar, ppar, geom) in cfgs:
         J.append(Job(f'MAP:closed_form:m={m}:n={n}:noise={npar}/{nf}:prior={ppar}/{pf}:geometry={geom}',
